@@ -121,9 +121,12 @@ class InterpBase:
     # -- driver ------------------------------------------------------------------------
     def run(self, func: FuncInfo, args: Dict[str, AVal], pc=False) -> Summary:
         summ = None
+        self.final = getattr(self, "final", set())
         for _ in range(self.MAX_ROUNDS):
             self.dirty = False
             self.active = set()
+            self.stack = []
+            self.unstable = set()
             self.round_done = set()
             summ = self.call_function(func, dict(args), pc, chain=())
             if not self.dirty:
@@ -140,12 +143,18 @@ class InterpBase:
             if key not in self.memo:
                 self.memo[key] = Summary()
                 self.dirty = True
+            self.unstable.update(self.stack)
+            return self.memo[key]
+        if key in self.final:
             return self.memo[key]
         if key in self.round_done:
+            if key in self.unstable:
+                self.unstable.update(self.stack)
             return self.memo[key]
         if len(chain) > 60:
             raise AnalysisError("call chain too deep: " + " > ".join(c[0] for c in chain[-8:]))
         self.active.add(key)
+        self.stack.append(key)
         self.contexts += 1
         self.functions_analysed.add(func.qualname)
         frame = Frame(func, chain)
@@ -179,7 +188,10 @@ class InterpBase:
                 self.dirty = True
         self.memo[key] = summ
         self.active.discard(key)
+        self.stack.pop()
         self.round_done.add(key)
+        if key not in self.unstable:
+            self.final.add(key)
         return summ
 
     # -- events ------------------------------------------------------------------------
@@ -195,6 +207,8 @@ class InterpBase:
     def raise_exc(self, frame: Frame, exc: str, node, env, tainted: bool, witness=None, reason=""):
         """An exception `exc` may be raised at `node` with state `env`."""
         if witness is None:
+            if tainted or reason == "explicit raise":
+                self.event("mayraise", frame, node, exc=exc, tainted=tainted, reason=reason)
             witness = ((frame.func.qualname, f"{frame.func.file}:{getattr(node, 'lineno', 0)}", norm(node) if not isinstance(node, ast.stmt) else head(node), reason),)
         for rec in reversed(frame.trystack):
             for i, (names, h) in enumerate(rec.handlers):
@@ -484,9 +498,9 @@ class InterpBase:
             if guards and target.id in {n for g in guards.values() for n in g[1]}:
                 env["$guards"] = {k: g for k, g in guards.items() if target.id not in g[1]}
             if value_node is not None and isinstance(value_node, (ast.Compare, ast.BoolOp, ast.UnaryOp, ast.Call)) and v.only("bool"):
-                names = {n.id for n in ast.walk(value_node) if isinstance(n, ast.Name)}
+                names = _names_in(value_node)
                 g = dict(env.get("$guards") or {})
-                g[target.id] = (value_node, frozenset(names))
+                g[target.id] = (value_node, names)
                 env["$guards"] = g
             elif env.get("$guards") and target.id in env["$guards"]:
                 g = dict(env["$guards"]); g.pop(target.id); env["$guards"] = g
@@ -497,7 +511,7 @@ class InterpBase:
             self.unpack_ops(v, n, target, env, frame)
             if v.tup is not None and len(v.tup) == n and not starred:
                 parts = list(v.tup)
-                rest = v.types - {"tuple"}
+                rest = (v.types - {"tuple"}) if "tuple" in v.types else frozenset()
                 if rest and (rest & {"list", "dict", "set", "iter", "json", "any", "str", "range"}):
                     other = elem_of(replace(v, tup=None, types=frozenset(rest)))
                     if not other.is_bottom:
@@ -572,6 +586,17 @@ class InterpBase:
         vorg = value.all_orgs()
         if vorg or target.org:
             self.event("store", frame, st, target_org=sorted(target.org), value_org=sorted(vorg), attr=attr or "", target=target.short(), value=value.short())
+
+
+_NAMES_CACHE = {}
+
+
+def _names_in(node):
+    hit = _NAMES_CACHE.get(id(node))
+    if hit is None or hit[0] is not node:
+        hit = (node, frozenset(n.id for n in ast.walk(node) if isinstance(n, ast.Name)))
+        _NAMES_CACHE[id(node)] = hit
+    return hit[1]
 
 
 def _as_load(t):
